@@ -349,6 +349,61 @@ func ruleVALTOTAL(c *Ctx, r *Report) {
 	if missOK {
 		r.ok(rule, "Validate|missing-validator", c.pos(validate.Pos()), "not-found edge returns an error")
 	}
+	// Validate has no criterion of its own: its errors are the missing-validator error, the registered
+	// validator's error and the errors of its recursive calls
+	{
+		seenErr := map[string]bool{}
+		for _, p := range paths {
+			if p.Ret == nil || len(p.Ret.Results) != 1 {
+				continue
+			}
+			ev := c.resolve(p.Ret.Results[0], p.Env)
+			if isNilConst(ev) {
+				continue
+			}
+			k := c.key(ev, p.Env)
+			if seenErr[k] {
+				continue
+			}
+			seenErr[k] = true
+			okSrc := false
+			if call, ok := ev.(*ssa.Call); ok {
+				switch {
+				case call.Call.StaticCallee() == validate:
+					okSrc = true
+				case call.Call.StaticCallee() == nil && !call.Call.IsInvoke():
+					okSrc = true // the validator taken from the table
+				case calleeFullName(call) == "fmt.Errorf" || calleeFullName(call) == "errors.New":
+					vt := c.readTable(pkgExpr, "validators")
+					for _, a := range p.Atoms {
+						if a.Kind == "call" && !a.Pos && strings.HasPrefix(a.Subj, "haskey:") {
+							okSrc = true
+						}
+						// the table written as a dispatch function: its "found" result is false
+						if vt.Fn != nil && a.Kind == "bool" && !a.Pos && strings.HasPrefix(a.Subj, fnName(vt.Fn)+"(") {
+							okSrc = true
+						}
+						if vt.Fn != nil && a.Kind == "nil" && a.Pos && strings.HasPrefix(a.Subj, fnName(vt.Fn)+"(") {
+							okSrc = true
+						}
+					}
+				default:
+					if sc := call.Call.StaticCallee(); sc != nil {
+						for _, e := range c.readTable(pkgExpr, "validators").Entries {
+							if e.Fn == sc {
+								okSrc = true
+							}
+						}
+					}
+				}
+			}
+			if okSrc {
+				r.ok(rule, "Validate|error-source|"+k, c.instrPos(p.Ret), "validator / recursion / missing validator")
+			} else {
+				r.bad(rule, "Validate|error-source|"+k, c.instrPos(p.Ret), "Validate rejects a tree with an error that comes neither from the operator's registered validator nor from validating a child ("+k+"): a check on the content of names or values at validation time rejects queries depending on options (a default field) that otherwise only scope bare terms")
+			}
+		}
+	}
 	if recL && recR {
 		// and on every path that accepts an *Expression node both recursive calls are made
 		okAll := true
